@@ -655,6 +655,7 @@ pub fn run(args: &Args) -> i32 {
         "error classes at this seam are mapped through h3's own got_frame_error table; the code on the wire is checked at seam 2".into(),
         "SETTINGS payload truncated inside an entry: H3_FRAME_ERROR or H3_SETTINGS_ERROR accepted (DESIGN.md 7)".into(),
     ];
+    rep.rule.push_str(" Seam 2 (c02_conn): every faulty string of its list written by a scripted peer to a real server / client connection over simnet - on the control stream, on a request stream as the first frame, behind a valid head, and behind a complete message (head, DATA, trailers) - delivered whole, one byte per read, under explored read cuts and delays (deviation bound 2/3), and with the last k bytes and the end of the stream arriving only after the endpoint has consumed everything before them, for every k; oracle = the code of the connection close and of the error the driver reports.");
     rep.bound_note = format!("exhaustive over the stated grammar; dense chunking up to {dense_max} bytes, <= {max_cuts} cuts above");
     let ss = strings(args.tier);
     let chunks: Vec<&[Vec<u8>]> = ss.chunks(64).collect();
